@@ -293,6 +293,7 @@ class World:
         self.start_delays = start_delays or [0.0] * self.m
         self.outcome = None
         self.hang_report = None
+        self.time_limit = 60.0      # virtual seconds; all injected delays are < 2 s
         self._boot()
 
     # -- boot all parties through the real mpyc.runtime.setup()
@@ -394,6 +395,9 @@ class World:
                         if w is not None and (nxt is None or w < nxt):
                             nxt = w
                 if nxt is None:
+                    break
+                if nxt > self.time_limit:
+                    self.stats['time_limit_hit'] += 1
                     break
                 if nxt > self.now:
                     self.now = nxt
